@@ -358,32 +358,18 @@ def run(cx):
     for k, v in cmp_tbl.items():
         kn, vn = getattr(k, "name", str(k)), getattr(v, "name", str(v)).split(".")[-1]
         r.check(CMP_ORACLE.get(kn) == vn, f"_eval_const.compare[{kn}]->{vn}", (pm, ev), f"ast.{kn} is evaluated with operator.{vn}, expected operator.{CMP_ORACLE.get(kn)}")
-    # unary / boolean / conditional arms
-    tr = CondTrace(lambda s: isinstance(s, ast.Return))
-    tr.run_function(ev, frozenset({frozenset()}))
-    seen = set()
-    for ret, state in tr.hits:
-        rv = norm(ret.value) if ret.value is not None else "None"
-        for alt in state:
-            cs = conds(alt)
-            for opname, want in (("USub", "-v"), ("UAdd", "v"), ("Not", "not v")):
-                if (f"isinstance(n.op, ast.{opname})", True) in cs and ("isinstance(n, ast.UnaryOp) and type(n.op) in _UN", True) in cs:
-                    seen.add(opname)
-                    r.check(rv == want, f"_eval_const.unary[{opname}]", (pm, ret), f"ast.{opname} evaluates to `{rv}`, expected `{want}`")
-            if ("isinstance(n, ast.IfExp)", True) in cs:
-                seen.add("IfExp")
-    r.check({"USub", "UAdd", "Not"} <= seen, "_eval_const.unary/arms-present", (pm, ev), f"unary arms recognised: {sorted(seen)}")
-    for n in ast.walk(ev):
-        if isinstance(n, ast.If) and norm(n.test) == "isinstance(n, ast.IfExp)":
-            loc_txt = " ".join(norm(s) for s in n.body)
-            ok = "n.body if cond else n.orelse" in loc_txt and "cond = ev(n.test)" in loc_txt
-            r.check(ok, "_eval_const.ifexp/selects-body-when-true", (pm, n), f"conditional expression arm: `{loc_txt[:80]}`")
-        if isinstance(n, ast.If) and norm(n.test) in ("isinstance(n.op, ast.And)", "isinstance(n.op, ast.Or)"):
-            is_and = "And" in norm(n.test)
-            txt = " ".join(norm(s) for s in n.body)
-            init_ok = (f"result = {'True' if is_and else 'False'}" in txt)
-            upd_ok = (f"result = result {'and' if is_and else 'or'} ev(value)" in txt)
-            r.check(init_ok and upd_ok, f"_eval_const.boolop[{'And' if is_and else 'Or'}]", (pm, n), f"boolean arm: `{txt[:90]}`")
+    # unary / boolean / conditional arms: decided on values (however the arms are written - if-chain, table, helper)
+    for key_, src_ in (("unary[USub]", "-3"), ("unary[USub]", "-(2.5)"), ("unary[USub]", "-(-4)"), ("unary[UAdd]", "+3"), ("unary[UAdd]", "+(-2.5)"), ("unary[Not]", "not 0"), ("unary[Not]", "not 2"), ("unary[Not]", "not ''"),
+                       ("ifexp/selects-body-when-true", "1 if 5 else 2"), ("ifexp/selects-body-when-true", "1 if 0 else 2"), ("ifexp/selects-body-when-true", "'a' if '' else 'b'"),
+                       ("boolop[And]", "0 and 5"), ("boolop[And]", "3 and 5"), ("boolop[And]", "3 and 0 and 7"), ("boolop[Or]", "0 or 5"), ("boolop[Or]", "3 or 5"), ("boolop[Or]", "0 or 0 or 9")):
+        try:
+            o_ = dl.Interp(pm, opaque={"ast.parse": ast.parse}).call(evc, [src_, {}])
+        except dl.Unsupported as e:
+            raise AnalysisError(f"_eval_const left the evaluable subset on `{src_}`: {e}")
+        want_ = eval(src_, {"__builtins__": {}})
+        # (and/or may be folded to their truth value: the type side of that is C02's known boolop finding)
+        ok_ = o_.kind == "raise" or o_.value == want_ or (key_.startswith("boolop") and bool(o_.value) == bool(want_))
+        r.check(ok_, f"_eval_const.{key_}", (pm, ev), f"_eval_const({src_!r}) -> {o_!r}; Python gives {want_!r}", sample=f"{src_} -> {want_!r}")
     casts = lit.table(pm, "_SAFE_CASTS")
     r.check({k: getattr(v, "name", None) for k, v in casts.items()} == {"int": "int", "float": "float", "str": "str", "bool": "bool"}, "_SAFE_CASTS/identity", (pm.rel, pm.const("_SAFE_CASTS").lineno), f"_SAFE_CASTS = {casts}")
 
